@@ -53,6 +53,7 @@ func cmdVerify(args []string) {
 		os.Exit(2)
 	}
 	eng := newEngine(repoDir())
+	eng.sequential = os.Getenv("GOVC_SEQUENTIAL") != ""
 	if err := eng.load(strings.Split(args[0], ",")...); err != nil {
 		fmt.Fprintln(os.Stderr, "TOOL-ERROR:", err)
 		os.Exit(2)
